@@ -536,6 +536,8 @@ pub fn script_props(id: &str) -> Option<ScriptProp> {
                     split_after: vec![None, Some(2), Some(5)],
                     n_trees: vec![None, Some(1), Some(2)],
                     edge_ids: true,
+                    // arbitrary bit patterns too: "keeps the vectors" is a bit-level claim for float -> float changes
+                    classes: vec![ValueClass::Grid, ValueClass::Uniform, ValueClass::Bits, ValueClass::Extreme],
                     ..script_gen_base()
                 },
                 quick: 30_000,
